@@ -13,6 +13,7 @@ CFGS = [
     ({}, [], 1.0),                                                       # areas from max_x = max_y = 100
     ({"max_x_position": 48.0, "max_y_position": 96.0}, [], 1.0),         # grid lines x = +-16, y = +-32 on the k/8 lattice
     ({"max_distance": 160.0, "min_distance": 0.0}, ["max_x_position", "max_y_position"], 3.0),  # analyzer default 100/100, objects beyond it
+    ({"target_labels": ["car", "bicycle", "pedestrian", "unknown"]}, [], 1.0),   # 'unknown' is a target: unknown estimates on car GTs are TP pairs with two labels (F15)
 ]
 CRIT = [
     {"max_x_position_list": [200.0] * 4, "max_y_position_list": [200.0] * 4},
@@ -35,6 +36,22 @@ WITNESS = {
 }
 
 
+# F15 witness: 'unknown' among the targets, unknown-matching allowed: two unknown estimates are TP on two car ground truths, one unknown
+# ground truth is missed -> summarize_ratio row 'unknown': TP = 2 estimate rows / 1 ground-truth row = 2.0
+WITNESS_F15 = {
+    "stream": "witness_f15", "frame": "base_link", "div": 1, "cfg": 3, "crit": 0, "pf": 0,
+    "scenes": [[{"index": 0, "t": 1000000,
+                 "gts": [G("g0", "car", 10.0, 0.0), G("g1", "car", 20.0, 5.0), G("g2", "unknown", -30.0, 5.0)],
+                 "ests": [E("t0", "unknown", 10.0, 0.0, conf=0.9), E("t1", "unknown", 20.0, 5.0, conf=0.8)]}]],
+    "sels": [{}, {"label": "unknown"}], "analyze": [{}],
+}
+
+
+def mixed_label_tp(obs):
+    """F15 class: a TP pair whose estimate and ground truth carry different labels"""
+    return any(e["label"] != g["label"] for sc in obs.get("facts", []) for f in sc for e, g in f["tp"])
+
+
 def make_manager(cfg_i, frame, tag="c19"):
     from perception_eval.config import PerceptionEvaluationConfig
     from perception_eval.manager import PerceptionEvaluationManager
@@ -53,9 +70,10 @@ def evaluate_scenes(case):
     out, mgr = [], None
     for frames in case["scenes"]:
         mgr = make_manager(case["cfg"], case["frame"])
+        tg = CFGS[case["cfg"]][0].get("target_labels")
         for fr in frames:
             mgr.add_frame_result(fr["t"], MC.make_gt_frame(fr, case["frame"]), MC.make_estimates(fr, case["frame"]),
-                                 MC.critical_cfg(mgr, CRIT[case["crit"]]), MC.passfail_cfg(mgr, PF[case["pf"]]))
+                                 MC.critical_cfg(mgr, CRIT[case["crit"]], tg), MC.passfail_cfg(mgr, PF[case["pf"]], tg))
         out.append(list(mgr.frame_results))
     if mgr is None:
         mgr = make_manager(case["cfg"], case["frame"])
@@ -135,7 +153,7 @@ class AnalyzerCorr(Corr):
 
     # ------------------------------------------------------------------ generation
     def cases(self, tier, rng):
-        out = [WITNESS]
+        out = [WITNESS, WITNESS_F15]
         # regression inputs: nothing at all, only FN, only FP without ground truth, FP-labelled ground truths, two scenes
         out.append({"stream": "edge", "frame": "base_link", "div": 1, "cfg": 0, "crit": 0, "pf": 0,
                     "scenes": [[{"index": 0, "t": 1000000, "gts": [], "ests": []}]], "sels": [{}], "analyze": [{}]})
@@ -159,7 +177,7 @@ class AnalyzerCorr(Corr):
         return out
 
     def gen_case(self, rng, ci):
-        cfg = [0, 1, 2][ci % 3] if ci % 7 else 1
+        cfg = 3 if ci % 5 == 4 else ([0, 1, 2][ci % 3] if ci % 7 else 1)
         scale = CFGS[cfg][2]
         frame = "map" if ci % 2 else "base_link"
         n_scenes = 1 if rng.random() < 0.6 else 2
@@ -440,7 +458,7 @@ class AnalyzerCorr(Corr):
                              "cm": obs.get("cm")}}
 
     def distribution(self, cases, obs):
-        d = {"frames": {"base_link": 0, "map": 0}, "div": {1: 0, 3: 0, 9: 0}, "cfg": {0: 0, 1: 0, 2: 0}, "scenes2": 0, "n_frames": 0, "rows": 0,
+        d = {"frames": {"base_link": 0, "map": 0}, "div": {1: 0, 3: 0, 9: 0}, "cfg": {0: 0, 1: 0, 2: 0, 3: 0}, "mixed_label_tp_cases(F15 class)": 0, "scenes2": 0, "n_frames": 0, "rows": 0,
              "tp": 0, "fp_with_gt": 0, "fp_without_gt": 0, "tn": 0, "fn": 0, "fp_pairs_with_ordinary_gt(F11 class)": 0, "frames_in_F11_class": 0,
              "rows_area_none": 0, "rows_on_grid_line": 0, "empty_tables": 0, "yaw_ambiguous_cases": 0, "fp_labelled_gt_rows": 0, "analyze_empty": 0}
         for c, o in zip(cases, obs):
@@ -451,6 +469,7 @@ class AnalyzerCorr(Corr):
             d["cfg"][c["cfg"]] += 1
             d["scenes2"] += len(c["scenes"]) == 2
             d["yaw_ambiguous_cases"] += self.ambiguous(o)
+            d["mixed_label_tp_cases(F15 class)"] += mixed_label_tp(o)
             for sc in o["facts"]:
                 for f in sc:
                     d["n_frames"] += 1
@@ -650,9 +669,15 @@ def oracle(case, obs):
     rt = obs["ratio"]
     if "error" in rt:
         return f"summarize_ratio raised {rt['error']}"
+    f15_msg = None
     for lname, r in zip(labels, rt["ok"]):
         if any(not (0.0 <= v <= 1.0) for v in r):
-            return f"summarize_ratio[{lname}] = {dict(zip(STATUS, r))} is not within [0, 1]"
+            msg = f"summarize_ratio[{lname}] = {dict(zip(STATUS, r))} is not within [0, 1]"
+            # F15 class: only the per-label TP rate exceeds 1 and a TP pair carries two different labels (estimate rows over ground-truth rows)
+            if lname != "ALL" and r[0] > 1.0 and all(0.0 <= v <= 1.0 for v in r[1:]) and mixed_label_tp(obs):
+                f15_msg = f15_msg or ("F15-class: " + msg)
+                continue
+            return msg
     if n_gt > 0:
         want = [n_tp / n_gt, (n_fp / (n_tp + n_fp) if n_tp + n_fp else 0.0), n_tn / n_gt, n_fn / n_gt]
         if any(abs(a - b) > 1e-12 for a, b in zip(rt["ok"][0], want)):
@@ -685,7 +710,11 @@ def oracle(case, obs):
             continue
         for lname, r in zip(labels, a["ratio"]):
             if any(not (0.0 <= v <= 1.0) for v in r):
-                return f"analyze({kw}).score[{lname}] = {dict(zip(STATUS, r))} is not within [0, 1]"
+                msg = f"analyze({kw}).score[{lname}] = {dict(zip(STATUS, r))} is not within [0, 1]"
+                if lname != "ALL" and r[0] > 1.0 and all(0.0 <= v <= 1.0 for v in r[1:]) and mixed_label_tp(obs):
+                    f15_msg = f15_msg or ("F15-class: " + msg)
+                    continue
+                return msg
         if not kw:
             if a["ratio"] != rt["ok"] or a["cm"] != cm.get("ok") or not same_summaries(a["summary"], sm["ok"]):
                 return "analyze() differs from summarize_ratio() / summarize_error() / get_confusion_matrix()"
@@ -735,7 +764,7 @@ def oracle(case, obs):
         if want is not None and g["ok"][0] != want[0]:
             # the only admissible surplus is the F11 one (counted in `want` through the pass/fail lists themselves)
             return f"get_num_ground_truth({s}) = {g['ok'][0]} but the pass/fail lists give {want[0]}"
-    return f11_status
+    return f11_status or f15_msg
 
 
 def wrap_pi(d):
@@ -839,12 +868,20 @@ class C19(Prop):
 
     # the oracle clauses 8/9 fire on F11: a ground truth paired with a failing estimate is the GT row of the FP pair and an FN row
     def known_match(self, finding, corr_name, case, obs, msg):
+        if finding.get("id") == "F15":
+            return corr_name == "analysis_table" and str(msg).startswith("F15-class: ") and mixed_label_tp(obs)
         if finding.get("id") != "F11" or corr_name != "analysis_table" or not str(msg).startswith("F11-class: "):
             return False
         return any(g is not None and not g["isfp"] and any(h["uuid"] == g["uuid"] for h in f["fn"])
                    for sc in obs.get("facts", []) for f in sc for _, g in f["fp"])
 
     def known_probe(self, finding):
+        if finding.get("id") == "F15":
+            obs = AnalyzerCorr().run_impl(WITNESS_F15)
+            if not isinstance(obs.get("ratio"), dict) or "ok" not in obs["ratio"] or "unknown" not in obs["targets"]:
+                return False
+            row = obs["ratio"]["ok"][1 + obs["targets"].index("unknown")]
+            return row[0] > 1.0
         if finding.get("id") != "F11":
             return False
         c = AnalyzerCorr()
